@@ -51,14 +51,14 @@ class PoolWorld(World):
     STUB = ["threading.Event/Lock (simulated, baton scheduler)", "time (virtual clock)",
             "sockets + selector (in-memory)", "Worker.__hash__ (index based)", "jobs (scripted durations)"]
     PROBES = ["refused", "worker_retired", "worker_created", "close_with_running_jobs", "preempted",
-              "server_layer", "refused_on_wire", "worker_reused"]
+              "server_layer", "refused_on_wire", "worker_reused", "close_races_submission", "submit_after_close_refused", "stalled"]
     RULE = ("plan = (layer, THREADPOOL_SIZE, THREADPOOL_SIZE_MIN, per job: duration and gap before the next "
             "submission, optional close time, pre-emption probabilities); distinct = distinct interleaving digest "
             "(sequence of thread switches, pre-emption sites and socket events); non-trivial = at least one "
             "pre-emption or contended scheduling choice happened and at least two jobs overlapped or one was refused")
     ASSUMPTIONS = ["pre-emption granularity is the source line inside Pool/Worker methods",
                    "a worker that was handed the retire signal is not counted as live",
-                   "close() is raced with job completions, not with submissions"]
+                   "a job accepted at the very instant close() is called may be dropped (never started); it must never start after close() returned"]
     QUICK_RUNS = 6000
     CHUNK = 250
     SHRINK_LISTS = ["jobs"]
@@ -80,7 +80,12 @@ class PoolWorld(World):
         close = None
         if rng.random() < 0.5:
             close = {"after": rng.choice([0, 0, 0.001, 0.01, 0.05, 0.3])}
-        return {"layer": layer, "size": size, "min": mn, "jobs": jobs, "close": close,
+            if layer == "pool" and rng.random() < 0.4:
+                close["during"] = rng.randrange(njobs)      # close() in another thread while the accept thread keeps submitting
+        p_stall = rng.choice([0.0, 0.0, 0.01, 0.03]) if layer == "pool" else 0.0
+        if close and "during" in close:
+            p_stall = rng.choice([0.02, 0.05, 0.1])
+        return {"layer": layer, "size": size, "min": mn, "jobs": jobs, "close": close, "p_stall": p_stall,
                 "p_line": rng.choice([0.0, 0.02, 0.05, 0.1, 0.2, 0.3]),
                 "p_block": rng.choice([0.0, 0.3, 0.6, 1.0])}
 
@@ -157,6 +162,9 @@ class PoolWorld(World):
             ST.Pool.notify_done = ond
         if sched.preempts:
             ctx.probe("preempted")
+        if sched.stalls:
+            ctx.probe("stalled")
+            ctx.fault("thread_stall", sched.stalls)
 
     # ------------------------------------------------------------------
     def _pool_layer(self, ctx, st, workers, check_bound):
@@ -186,8 +194,25 @@ class PoolWorld(World):
                 running[0] -= 1
 
         status = {}
+        sub_now = {}
+        closing = {"t": None, "done": [], "called_now": None}
+
+        def closer():
+            closing["called_now"] = sched.now
+            if running[0]:
+                ctx.probe("close_with_running_jobs")
+            pool.close()
+            st["closed_returned"] = sched.stamp()
+            closing["done"].append(1)
+
+        def start_closer():
+            closing["t"] = threading.Thread(target=closer, name="closer")
+            closing["t"].start()
+
+        during = plan["close"].get("during") if plan["close"] else None
         for i, j in enumerate(plan["jobs"]):
             in_service_before = st["in_service"]
+            sub_now[i] = sched.now
             try:
                 st["in_service"] += 1
                 pool.process(Job(i, j["dur"]))
@@ -199,39 +224,44 @@ class PoolWorld(World):
                 if in_service_before < plan["size"]:
                     ctx.violate("spurious-refusal", "", "job %d refused with only %d of %d workers in service"
                                 % (i, in_service_before, plan["size"]))
+            except ST.PoolError as x:
+                st["in_service"] -= 1
+                status[i] = "closed"
+                if closing["t"] is None:
+                    ctx.violate("submit-raised", "PoolError", "job %d: %r although close() was never called" % (i, x))
+                else:
+                    ctx.probe("submit_after_close_refused")
             except Exception as x:  # noqa
                 st["in_service"] -= 1
                 status[i] = "error"
                 ctx.violate("submit-raised", type(x).__name__, "job %d: %r" % (i, x))
-            check_bound("after submit %d" % i)
-            if pool.idle & pool.busy:
-                ctx.violate("idle-busy-overlap", "", "a worker is in idle and busy at once")
+            if closing["t"] is None:
+                check_bound("after submit %d" % i)
+                if pool.idle & pool.busy:
+                    ctx.violate("idle-busy-overlap", "", "a worker is in idle and busy at once")
+            if during is not None and i == during and closing["t"] is None:
+                ctx.probe("close_races_submission")
+                start_closer()
             if j["gap"]:
                 sched.sleep(j["gap"])
         ctx.nontrivial = bool(sched.choices) and (maxrun[0] >= 2 or "refused" in status.values())
         maxdur = max([j["dur"] for j in plan["jobs"]] + [0])
-        not_started_at_close = set()
         if plan["close"] is not None:
-            if plan["close"]["after"]:
-                sched.sleep(plan["close"]["after"])
-            if running[0]:
-                ctx.probe("close_with_running_jobs")
-            not_started_at_close = {i for i, s_ in status.items() if s_ == "accepted" and i not in ran}
-            done = []
-
-            def closer():
-                pool.close()
-                done.append(1)
-
-            t = threading.Thread(target=closer, name="closer")
-            t.start()
-            t.join(60.0)
-            if not done:
+            if closing["t"] is None:
+                if plan["close"]["after"]:
+                    sched.sleep(plan["close"]["after"])
+                start_closer()
+            closing["t"].join(60.0)
+            if not closing["done"]:
                 ctx.violate("close-deadlock", "", "Pool.close() did not return within 60 virtual seconds")
                 return
-            st["closed_returned"] = sched.stamp()
             sched.sleep(maxdur + 1.0)
-            sched.settle(5.0)
+            sched.quiesce()
+            for _ in range(30):
+                if not running[0]:
+                    break
+                sched.sleep(maxdur + 0.5)
+                sched.quiesce()
             alive = [w for w in workers if (sched.sim_thread_of(w) is not None and sched.sim_thread_of(w).state != "done")]
             if alive:
                 ctx.violate("worker-not-exited", "", "%d worker threads still alive after close and all jobs ended"
@@ -240,7 +270,13 @@ class PoolWorld(World):
                 ctx.violate("job-started-after-close", "", "jobs %r started after close() returned" % started_after_close)
         else:
             sched.sleep(maxdur + 1.0)
-            sched.settle(5.0)
+            sched.quiesce()
+            for _ in range(30):     # a stalled worker may start its job late: wait for it while it makes progress
+                pending = [i for i, s_ in status.items() if s_ == "accepted" and i not in ran]
+                if not running[0] and not (pending and sched.stalls):
+                    break
+                sched.sleep(maxdur + 0.5)
+                sched.quiesce()
             check_bound("quiescence")
             if pool.idle & pool.busy:
                 ctx.violate("idle-busy-overlap", "", "a worker is in idle and busy at once")
@@ -248,12 +284,16 @@ class PoolWorld(World):
                 ctx.violate("stale-busy-worker", "", "%d workers still busy after all jobs ended" % len(pool.busy))
         for i, s_ in status.items():
             n = ran.get(i, 0)
-            if s_ == "refused" and n:
+            if s_ in ("refused", "closed") and n:
                 ctx.violate("refused-job-ran", "", "job %d was refused but ran %d times" % (i, n))
             elif s_ == "accepted":
+                # a job that had not started when close() was called may be dropped - but only if no virtual time passed
+                # between its submission and that call (time only advances when every thread had its chance to run)
+                # (with injected thread stalls that argument does not hold: then any job not started at the call is exempt)
+                exempt = closing["called_now"] is not None and (sub_now[i] >= closing["called_now"] or sched.stalls > 0)
                 if n > 1:
                     ctx.violate("job-ran-twice", "", "job %d ran %d times" % (i, n))
-                elif n == 0 and i not in not_started_at_close:
+                elif n == 0 and not exempt:
                     ctx.violate("job-dropped", "", "job %d was accepted but never ran" % i)
         if plan["close"] is None:
             pool.close()
